@@ -185,6 +185,9 @@ func (e *Exec) execBlocks(fr *frame, b *ssa.BasicBlock) Value {
 					}
 					rv = t
 				}
+				if e.anyReleased {
+					e.checkReturnsReleased(fr, rv)
+				}
 				return rv
 			case *ssa.Panic:
 				v := e.operand(fr, x.X)
